@@ -84,7 +84,16 @@ class C02(Check):
             cls = "zero" if index == 0 else ("unit" if index <= 96 else ("ones" if index == 97 else "unit-complement"))
             # transmitted "in place": every pattern gets a freshly encoded codeword which the channel corrupts without copying it first
             # (a transmitter that keeps hold of / re-uses what encode() returned is then exposed); the case is the whole pattern history
-            return {"message": v.to_bytes(12, "big").hex(), "mclass": cls, "inplace": True, "ops": [[]] + [[i] for i in range(196)] + [[]]}
+            # Between transmissions the receiver also hears noise (a random 196-bit word, decoded with repair, result not judged), and in
+            # half of the runs the message is handed to the encoder in a little-endian bitarray (same bit sequence; legal, unusual).
+            w = streams["work"]
+            ops = [[]]
+            for i in range(196):
+                if w.random() < 0.06:
+                    ops.append({"noise": w.getrandbits(32), "weight": w.choice([3, 5, 98])})
+                ops.append([i])
+            ops.append([])
+            return {"message": v.to_bytes(12, "big").hex(), "mclass": cls, "inplace": True, "little": index % 2 == 1, "ops": ops}
         # informational: sampled weight-3 patterns
         w = streams["work"]
         v = w.getrandbits(96)
@@ -113,17 +122,32 @@ class C02(Check):
         info = {}
         for _, (ii, row, col, is_res, is_ham) in BPTC19696.INTERLEAVING_INDICES.items():
             info[ii] = (row, col, is_res, is_ham)
+        if case.get("little"):
+            msg = bitarray(msg.to01(), endian="little")
         cw = BPTC19696.encode(msg.copy())
         mclass = case.get("mclass", "?")
         if "ops" in case:
-            pats = [tuple(p) for p in case["ops"]]
+            pats = [p if isinstance(p, dict) else tuple(p) for p in case["ops"]]
         else:
             allp = all_patterns()
             pats = allp[case["range"][0]: case["range"][1]]
         informational = bool(case.get("informational"))
         fails = {}
         inplace = bool(case.get("inplace"))
+        import random as _random
+
         for pi, p in enumerate(pats):
+            if isinstance(p, dict):  # noise reception: a corrupted-beyond-repair word of some other transmission; nothing is judged
+                r = _random.Random(p["noise"])
+                nz = BPTC19696.encode(bitarray([r.getrandbits(1) for _ in range(96)]))
+                for i in r.sample(range(196), p.get("weight", 98)):
+                    nz.invert(i)
+                try:
+                    BPTC19696.deinterleave_data_bits(nz, True)
+                except Exception:
+                    pass
+                res.fault("noise_reception")
+                continue
             res["evals"] += 1
             w = len(p)
             rx = BPTC19696.encode(msg.copy()) if inplace else cw.copy()
@@ -134,18 +158,18 @@ class C02(Check):
                     res.violate("C02.encode-length", mclass, f"encode returned {len(cw)} bits")
                 d1 = BPTC19696.deinterleave_data_bits(rx.copy(), True)
                 d0 = BPTC19696.deinterleave_data_bits(rx.copy(), False)
-                if d1 != msg or d0 != msg:
-                    self._fail(fails, res, "C02.clean-roundtrip", "clean", case, p, f"decode(with repair)={'ok' if d1 == msg else 'WRONG'} decode(without repair)={'ok' if d0 == msg else 'WRONG'}")
+                if d1.to01() != msg.to01() or d0.to01() != msg.to01():
+                    self._fail(fails, res, "C02.clean-roundtrip", "clean", case, p, f"decode(with repair)={'ok' if d1.to01() == msg.to01() else 'WRONG'} decode(without repair)={'ok' if d0.to01() == msg.to01() else 'WRONG'}")
                 rep = BPTC19696.repair_if_necessary(bits=rx.copy())
                 diff = [i for i in range(196) if rep[i] != cw[i] and i in info and not info[i][2]]
                 if diff:
                     self._fail(fails, res, "C02.repair-alters-clean-codeword", "clean", case, p, f"repair changed positions {diff[:10]} of an error-free codeword")
                 res.fault("weight0")
-                log.add(0, "rx", "clean", (d1 == msg, d0 == msg))
+                log.add(0, "rx", "clean", (d1.to01() == msg.to01(), d0.to01() == msg.to01()))
                 continue
             rel = self._relation(p, info)
             d = BPTC19696.deinterleave_data_bits(rx, True)
-            ok = d == msg
+            ok = d.to01() == msg.to01()
             log.add(0, "rx", p, ok)
             if informational:
                 res.fault("weight3_sampled")
@@ -156,12 +180,15 @@ class C02(Check):
             if not ok:
                 self._fail(fails, res, "C02.correctable-error-misdecoded", f"w{w}:{rel}", case, p,
                            f"{w} inverted bit(s) at transmitted positions {list(p)}: decoder with repair returned a different message")
+        pats = [p for p in pats if not isinstance(p, dict)]
         for (oracle, site), (n, first) in fails.items():
             for v in res["viol"]:
                 if v["oracle"] == oracle and v["site"] == site:
                     v["detail"] += f" ({n} patterns of this class failed for this message in this block)"
                     v["count"] = n
         res["ops"] = len(pats)
+        if case.get("little"):
+            res.probe("message_in_little_endian_bitarray")
         res["digest"] = log.digest()
         return res
 
